@@ -18,6 +18,7 @@ the theorems of Props/C01 apply to it.
         outs: per reader `-` not fanned out, `a` no error, `f` queue-full error   → the model's string
         `?` (both directions): the reader's own PAUSE is being processed on the server — the push goes
         to a closed ring or to no writer at all; its outcome is not compared
+  pipe werr                            a WritePacketRTP that returned an error: counted as a write, reaches no reader → err
   pipe pstart <r> <K|->                K = callbacks the reader had when its PAUSE returned (TCP) → ok | bad
   pipe pcl <r>                         the server's OnPause handler returned: `destroyWriter` follows → ok | bad
   pipe pinact <r>                      → ok <number of callbacks so far> | bad
@@ -177,6 +178,10 @@ def mk : IO Handler := do
         return if x.status == .playing && y.status == .playing && y.queue.length == x.queue.length
                   && y.wire.length == x.wire.length && y.cbs.length == x.cbs.length then "ok" else "changed"
       | none => return "bad-op"
+    | ["werr"] =>
+      -- a WritePacketRTP that returned an error (packet too big): it is counted, nobody gets it
+      ref.set (d.ev (.write 0 { pt := 1000000, seq := 0, ts := 0, ssrc := 0, marker := false, payload := [] }))
+      return "err"
     | ["write", m, pt, sq, ts, mk, ssrc, payload, outs] =>
       match m.toNat?, pt.toNat?, sq.toNat?, ts.toNat?, ssrc.toNat?, unhex payload with
       | some m, some pt, some sq, some ts, some ssrc, some pl =>
